@@ -101,6 +101,62 @@ def exhaustive_layer():
     return out
 
 
+def special_layer():
+    """project modules named like the link objects FORD always has (settings.INTRINSIC_MODS) or gets
+    from the `extra_mods` option: the exporter of the exhaustive layer, of the nested layer, of the
+    several-USE layer and of the shadowing layer under each such name -- every USE form, from module
+    scope and from nested scopes, re-exported through mb / mc; a USE statement names the project's
+    module (Fortran 2018 14.2.2: a statement without module nature, or NON_INTRINSIC, accesses the
+    nonintrinsic module of that name)"""
+    out = []
+    names = G.SPECIAL_NAMES
+    k = 0
+    exh = [(l, u) for l, u in exhaustive_layer()
+           if l.split(":")[2] == "public" and l.split(":")[3] in ("[]", "[('foo', False)]") or l.split(":")[3] == "[('foo', True), ('ta1', True)]"]
+    for label, units in exh:
+        if label.split(":")[1] == "with_intrinsic":
+            continue
+        k += 1
+        out.append((f"special:{names[k % len(names)]}:{label}", G.rename_modules(units, {"ma": names[k % len(names)]})))
+    for src, old in ((nested_layer(), ("za", "zf")), (multi_use_layer(), ("ma", "mb")), (shadow_layer(), None)):
+        for label, units in src:
+            k += 1
+            mods = [u["name"].lower() for u in units if u["unit"] == "module"]
+            # the module every other one draws from, and sometimes the re-exporting one as well
+            used = [m for m in mods if any(x["target"].lower() == m for u in units for x in G.all_uses(u))]
+            mapping = {}
+            for j, m in enumerate(used[:2] if k % 3 == 0 else used[:1]):
+                mapping[m] = names[(k + 4 * j) % len(names)]
+            out.append((f"special:{'+'.join(mapping.values())}:{label}", G.rename_modules(units, mapping)))
+    # `use, intrinsic ::` next to a project module of the same name
+    for n in ("iso_fortran_env", "mpi"):
+        ex = G.rename_modules([EXPORTER], {"ma": n})[0]
+        mb = mod("mb", uses=[use(n, prefix="non_intrinsic")])
+        mc = mod("mc", uses=[use("mb"), use("iso_c_binding", prefix="intrinsic")])
+        prog = mod("main", unit="program", uses=[use("mc", [("foo", "foo"), ("ta1", "ta1")])])
+        prog["decls"] = [ref_var("vz1", "type", "ta1")]
+        out.append((f"special:{n}:non_intrinsic_and_other_intrinsic", [ex, mb, mc, prog]))
+    return out
+
+
+def intrinsic_clash_cases():
+    """`use, intrinsic :: iso_fortran_env` in a project that has a module iso_fortran_env of its own:
+    the statement designates the intrinsic module (Fortran 2018 14.2.2), nothing of the project's
+    module is accessible through it"""
+    out = []
+    for n in ("iso_fortran_env", "iso_c_binding"):
+        ex = G.rename_modules([EXPORTER], {"ma": n})[0]
+        mb = mod("mb", uses=[use(n, prefix="intrinsic")])
+        mc = mod("mc", uses=[use("mb")])
+        out.append((f"intrinsic_clash:{n}:plain", [ex, mb, mc]))
+        mb2 = mod("mb", uses=[use(n.upper(), [("foo", "foo"), ("tl", "ta1")], prefix="intrinsic")])
+        out.append((f"intrinsic_clash:{n}:only", [ex, mb2, mod("mc", uses=[use("mb")])]))
+        mm = mod("mm", "public")
+        mm["decls"].append(nested_decl(nd("p", "routine", [use(n, prefix="intrinsic")], [("type", "ta1")]), "proc"))
+        out.append((f"intrinsic_clash:{n}:nested", [ex, mm]))
+    return out
+
+
 def nd(name, kind, uses=(), refs=(), children=()):
     return {"name": name, "kind": kind, "uses": list(uses), "children": list(children),
             "refs": [{"what": w, "id": i, "var": f"w{name}{k}"} for k, (w, i) in enumerate(refs, 1)]}
@@ -472,11 +528,17 @@ def run(chk):
     # 2c. several USE statements of one module in one scope
     for label, units in multi_use_layer():
         R.add(label, units, file_orders(rng, units, 1 if quick else 3))
+    # 2d. project modules named like intrinsic / extra modules
+    special = special_layer()
+    if quick:
+        special = [special[i] for i in sorted(rng.sample(range(len(special)), 70))]
+    for label, units in special + intrinsic_clash_cases():
+        R.add(label, units, file_orders(rng, units, 1 if quick else 3))
     # 3. random DAGs (mostly legal), two file orders each
     n_random = 240 if quick else 4000
     for k in range(n_random):
         knobs = {"regions": rng.random() < 0.25, "p_clash": 0.3 if rng.random() < 0.15 else 0.0,
-                 "p_nested": 0.6 if rng.random() < 0.4 else 0.0}
+                 "p_nested": 0.6 if rng.random() < 0.4 else 0.0, "p_special": 0.35}
         units = G.gen_graph(rng, knobs)
         R.add(f"random:{k}", units, file_orders(rng, units, 2 if quick else 4),
               html=any(u["unit"] == "program" and any(d.get("ref") for d in u["decls"]) for u in units)
